@@ -201,12 +201,12 @@ CHECKS = [
     },
     {
         "id": "C19",
-        "technique": "static analysis: inductive containment invariant over every store (who-may-write, value provenance of the map builder, dominance of the log insertion, filter-condition rule); finite abstract evaluation (decision tables with effects) of the two message handlers; exception-effect closure of the views; frame/payload layout agreement with the decoder",
+        "technique": "static analysis: inductive containment invariant over every store (who-may-write, value provenance of the map builder, dominance of the log insertion, filter-condition rule, must-pass-through of the log filter after every map store on the CFG); finite abstract evaluation (decision tables with effects) of the two message handlers; exception-effect closure of the views; frame/payload layout agreement with the decoder",
         "text": "Narrow claim - the statement's core (positions are right, no entry at two positions, newest-first, the shift on an announcement) is the "
         "integer arithmetic of FaultLog._insert_into_map over histories and is NOT decided. Decides the clauses whose truth is in the shape of the code: "
         "(R1, R5) 'reading it never raises': values(_map) is a subset of keys(_log) as an inductive invariant of every store (the map is only stored "
         "with the builder's result; the builder's values are old map values or its non-None timestamp argument; a timestamp is a log key before it is "
-        "installed, with no log store in between; the log is only added to, or filtered on exactly 'key in map.values()'; the views subscript the log "
+        "installed, with no log store in between; the log is only added to, or filtered on exactly 'key in map.values()'; after every store to the map every normal exit passes such a filter (a pruning helper must prune on all its paths), so the views that read the log show nothing the map has dropped; the views subscript the log "
         "with map values or its own keys) and nothing else can leave the four views or the system's wrappers (max() only of collections known non-empty); "
         "(R2) 'no entry that the controller never reported': log entries are FaultLogEntry.from_msg of the message being handled, keyed by their own "
         "timestamp, and handle_msg is reached only under a 0418 test; (R3) from the handlers' complete decision tables: an RP null entry (idx always 00) "
